@@ -337,6 +337,7 @@ structure POracle where
   travOps : Nat := 0
   lastErr : Nat := 0
   lastUsed : Nat := 0                   -- cursor after the previous call (C16)
+  afterRaw : Bool := false              -- the previous judged call was get_raw / to_writer on a container (C11: "the cursor continues with the element that follows")
   deriving Inhabited
 
 structure WOracle where
@@ -505,15 +506,19 @@ def cursorOracle (o : OState) (k : Nat) (po : POracle) (op : String) (toks : Lis
         | .raw => if res.ok then (match res.raw with | some s => s!"1R{s.off}+{s.len}" | none => "1R?") else "0R-"
         | _ => toString res.ok.toNat
       let o := if ob.ret != wantRet then o.flag prop s!"@{k} {op}: returned {ob.ret}, reference cursor {wantRet}" else o
+      -- C11: the call right after a successful get_raw must see the element that follows the container
+      let follows := po.afterRaw && prop != "C11"
+      let o := if follows && ob.ret != wantRet then o.flag "C11" s!"@{k} {op} after get_raw: returned {ob.ret}, reference cursor {wantRet} (the cursor does not continue with the element that follows the container)" else o
       let o := match res.item with
         | some it =>
+          let o := if follows && ob.ty != tyNum it.ty then o.flag "C11" s!"@{k} {op} after get_raw: type {ob.ty}, reference {tyNum it.ty} (the cursor does not continue with the element that follows the container)" else o
           let o := if ob.ty != tyNum it.ty then o.flag prop s!"@{k} {op}: type {ob.ty}, reference {tyNum it.ty}" else o
           let o := if ob.val != itemVal it then o.flag "C03" s!"@{k} {op}: value {ob.val}, reference {itemVal it}" else o
           (match it.name with
            | some (_, s) => if ob.name != s!"{s.off}+{s.len}" then o.flag "C03" s!"@{k} {op}: name span {ob.name}, reference {s.off}+{s.len}" else o
            | none => o)
         | none => o
-      (o, { po with cursor := some c' })
+      (o, { po with cursor := some c', afterRaw := (cop matches .raw) && res.ok })
     match op, toks with
     | "n", _ => navOp .next "C06"
     | "io", _ => navOp .enterObj "C06"
